@@ -746,7 +746,11 @@ fn run_inner(sc: &J) -> Result<Option<String>, String> {
             let schemas = ["\"bytes\"", "\"string\"", "\"long\"", "\"boolean\"", "{\"type\":\"bytes\",\"logicalType\":\"big-decimal\"}",
                 "{\"type\":\"bytes\",\"logicalType\":\"decimal\",\"precision\":5,\"scale\":1}", "{\"type\":\"array\",\"items\":\"null\"}", "{\"type\":\"map\",\"values\":\"int\"}",
                 "[\"null\",\"string\",{\"type\":\"enum\",\"name\":\"e\",\"symbols\":[\"a\",\"b\"]}]", "{\"type\":\"fixed\",\"name\":\"f\",\"size\":2}",
-                "{\"type\":\"string\",\"logicalType\":\"uuid\"}", "{\"type\":\"fixed\",\"name\":\"d\",\"size\":12,\"logicalType\":\"duration\"}"];
+                "{\"type\":\"string\",\"logicalType\":\"uuid\"}", "{\"type\":\"fixed\",\"name\":\"d\",\"size\":12,\"logicalType\":\"duration\"}",
+                "{\"type\":\"fixed\",\"name\":\"fd\",\"size\":2,\"logicalType\":\"decimal\",\"precision\":4,\"scale\":1}", "{\"type\":\"fixed\",\"name\":\"f0\",\"size\":0,\"logicalType\":\"decimal\",\"precision\":1,\"scale\":0}",
+                "\"float\"", "\"double\"", "\"int\"", "{\"type\":\"int\",\"logicalType\":\"date\"}", "{\"type\":\"long\",\"logicalType\":\"timestamp-micros\"}",
+                "{\"type\":\"array\",\"items\":\"boolean\"}", "{\"type\":\"record\",\"name\":\"r\",\"fields\":[{\"name\":\"a\",\"type\":\"int\"},{\"name\":\"b\",\"type\":[\"null\",\"string\"]}]}",
+                "{\"type\":\"bytes\",\"logicalType\":\"uuid\"}", "{\"type\":\"fixed\",\"name\":\"u16\",\"size\":16,\"logicalType\":\"uuid\"}"];
             let mut x = sc["seed"].as_u64().unwrap_or(0).wrapping_add(0x9E3779B97F4A7C15);
             for st in schemas {
                 let schema = Schema::parse_str(st).map_err(|e| format!("{st}: {e}"))?;
@@ -759,6 +763,19 @@ fn run_inner(sc: &J) -> Result<Option<String>, String> {
                     let mut rd = &inp[..];
                     if let Ok(v) = dr.read_value(&mut rd) {
                         if !v.validate(&schema) { return Ok(Some(format!("schema {st}: input {:02x?} decodes to {v:?} which does not validate", inp))); }
+                        // C06: "re-encoding it succeeds, and decoding the re-encoded bytes returns the same value"
+                        let consumed = inp.len() - rd.len();
+                        match apache_avro::to_avro_datum(&schema, v.clone()) {
+                            Err(e) => return Ok(Some(format!("schema {st}: input {:02x?} decodes to {v:?} ({consumed} bytes) but re-encoding that value fails: {e}", inp))),
+                            Ok(again) => {
+                                let mut rd2 = &again[..];
+                                match dr.read_value(&mut rd2) {
+                                    // values compared through their encodings (floats bit for bit: NaN != NaN under PartialEq)
+                                    Ok(v2) if rd2.is_empty() && (v2 == v || apache_avro::to_avro_datum(&schema, v2.clone()).ok().as_ref() == Some(&again)) => {}
+                                    other => return Ok(Some(format!("schema {st}: input {:02x?} decodes to {v:?}; re-encoded as {:02x?} it decodes to {other:?} with {} byte(s) left", inp, again, rd2.len()))),
+                                }
+                            }
+                        }
                     }
                 }
             }
